@@ -557,6 +557,12 @@ func (w *admWorld) jobCase(rng *rand.Rand) {
 	w.genStore(rng, nowSec)
 	n := 1 + rng.Intn(3)
 	for i := 0; i < n; i++ {
+		if i > 0 && rng.Intn(2) == 0 {
+			// the dynamic configuration changes between two admissions against the same cached JobConfigs:
+			// a later Job must be defaulted under the configuration in force at ITS admission
+			w.genConfig(rng)
+			w.c.Count("config.changed-between-admissions")
+		}
 		rj, label := w.genJob(rng, nowSec)
 		raw, variant := w.marshalVariant(rng, rj, admJobPaths)
 		w.c.Count("raw." + variant)
@@ -570,6 +576,7 @@ func (w *admWorld) jobCase(rng *rand.Rand) {
 		if rng.Intn(20) == 0 {
 			w.otherOps("job", raw)
 		}
+		w.cacheDrift()
 	}
 }
 
